@@ -525,7 +525,7 @@ func TestRoundTripSystems(t *testing.T) {
 	rec.SetRule(rule)
 	rec.Note("observed, not asserted: plonk VerifyingKey.WriteRawTo writes compressed points (its raw option is not applied); it still round-trips and behaves identically, which is all C09 states")
 	g := genCase(allCurves, []string{""})
-	rec.Check(t, "roundtrip", ev.N(160, 5000), func(rt *rapid.T) {
+	rec.Check(t, "roundtrip", ev.N(320, 5000), func(rt *rapid.T) {
 		c := g.Draw(rt, "case")
 		rec.Begin("roundtrip", c)
 		rec.Report(rt, "roundtrip", c, run(c))
@@ -540,7 +540,7 @@ func TestRoundTripKeys(t *testing.T) {
 		curves = []string{"bn254", "bn254", "bls12-381", "bls12-377", "bw6-761", "bls24-315"}
 	}
 	g := genCase(curves, []string{"groth16", "plonk"})
-	rec.Check(t, "roundtrip", ev.N(50, 3000), func(rt *rapid.T) {
+	rec.Check(t, "roundtrip", ev.N(100, 3000), func(rt *rapid.T) {
 		c := g.Draw(rt, "case")
 		rec.Begin("roundtrip", c)
 		rec.Report(rt, "roundtrip", c, run(c))
